@@ -191,7 +191,7 @@ def check(run, replay=None):
     run.trusted += ["harness tools/props/c04.py (builds the same configuration through the wntr API and as a Sched.cfg term)"]
     run.assumptions += ["sim_time is a float holding integers (the code refuses sub-second steps)",
                         "only time-driven conditions: the hydraulic solve cannot influence the trace (trivial network R -> J)"]
-    ok, log, fails = common.coq_make(["theories/C04/Proofs.vo", "theories/C04/AtTime.vo", "theories/C04/RuleGe.vo", "theories/C04/Prio.vo", "theories/C04/Window.vo", "theories/C04/AtTimeSet.vo", "theories/C04/AtTimeAll.vo", "theories/C04/RuleSet.vo", "theories/C04/Mixed.vo"])
+    ok, log, fails = common.coq_make(["theories/C04/Proofs.vo", "theories/C04/AtTime.vo", "theories/C04/RuleGe.vo", "theories/C04/Prio.vo", "theories/C04/Window.vo", "theories/C04/AtTimeSet.vo", "theories/C04/AtTimeAll.vo", "theories/C04/RuleSet.vo", "theories/C04/Mixed.vo", "theories/C04/RuleInterval.vo"])
     if not ok:
         for f, ln, msg in fails:
             run.tie_broken("proof no longer checks: %s line %s: %s" % (f, ln, common.theorem_line(f, ln)), msg)
